@@ -280,6 +280,7 @@ type WinCase struct {
 	Rollover int64    `json:"rollover"`
 	Keep     bool     `json:"keep"`
 	V1       bool     `json:"v1"`
+	AutoSync bool     `json:"autosync,omitempty"`
 	Prefix   []*SCall `json:"prefix"`
 	A        *SCall   `json:"a"`
 	Point    string   `json:"point"`
@@ -363,7 +364,7 @@ type winEnv struct {
 func newWinEnv(c *WinCase) (*winEnv, error) {
 	root := MkScratch("vf-c08-")
 	w := &winEnv{c: c, dir: root, m: NewModel()}
-	o := klevdb.Options{KeyIndex: true, TimeIndex: true, Rollover: c.Rollover}
+	o := klevdb.Options{KeyIndex: true, TimeIndex: true, Rollover: c.Rollover, AutoSync: c.AutoSync}
 	o.Version.KeepRewriteVersion = c.Keep
 	if c.V1 {
 		o.Version.NewSegmentsVersion = klevdb.V1
@@ -567,7 +568,7 @@ func TestC08Windows(t *testing.T) {
 		}
 	}()
 	rapid.Check(t, func(rt *rapid.T) {
-		c := &WinCase{Rollover: int64(pick(rt, []int{60, 130, 250}, "rollover")), Keep: uni(rt, 3, "keep") > 0, V1: uni(rt, 4, "v1") == 3}
+		c := &WinCase{Rollover: int64(pick(rt, []int{60, 130, 250}, "rollover")), Keep: uni(rt, 3, "keep") > 0, V1: uni(rt, 4, "v1") == 3, AutoSync: uni(rt, 4, "autosync") == 3}
 		w, err := newWinEnv(c)
 		if err != nil {
 			rt.Fatalf("open: %v", err)
